@@ -53,6 +53,8 @@ def parseNode (v : Json) : Except String NodeDef := do
       | "add" => pure Fn.add
       | "sub" => pure Fn.sub
       | "mul" => pure Fn.mul
+      | "gt" => pure Fn.gt
+      | "sel" => pure Fn.sel
       | "sum" => pure Fn.sum
       | "sumN" => pure Fn.sumN
       | "hist" => pure (Fn.hist (← getIntList v "edges"))
